@@ -1,1 +1,89 @@
-fn main(){}
+//! Stand-in for `/usr/sbin/cli xml-mode netconf need-trailer`: the NETCONF peer of the local
+//! Junos transport. Runs the script named by `FAKE_CLI_SCRIPT` over stdin/stdout and writes its
+//! time marks to `FAKE_CLI_MARKS`.
+#![allow(clippy::all)]
+
+#[path = "../script.rs"]
+mod script;
+
+use async_trait::async_trait;
+use script::{run_script, Marks, PeerIo, Script};
+use tokio::io::{AsyncReadExt, AsyncWriteExt};
+
+struct Stdio {
+    stdin: tokio::io::Stdin,
+    stdout: tokio::io::Stdout,
+    marks_path: Option<String>,
+}
+
+#[async_trait]
+impl PeerIo for Stdio {
+    async fn write_unit(&mut self, data: &[u8]) -> std::io::Result<()> {
+        self.stdout.write_all(data).await?;
+        self.stdout.flush().await
+    }
+    async fn read_some(&mut self) -> std::io::Result<Vec<u8>> {
+        let mut buf = vec![0u8; 16 * 1024];
+        let n = self.stdin.read(&mut buf).await?;
+        buf.truncate(n);
+        Ok(buf)
+    }
+    async fn close(&mut self, abrupt: bool) {
+        if abrupt {
+            // marks written so far are lost on purpose: the process dies like a killed cli
+            if let Some(p) = &self.marks_path {
+                let m = Marks {
+                    marks: vec![("killed".into(), script::mono_ns())],
+                    ..Marks::default()
+                };
+                let _ = std::fs::write(p, serde_json::to_vec(&m).unwrap_or_default());
+            }
+            // SAFETY: plain syscalls
+            unsafe {
+                libc::kill(libc::getpid(), libc::SIGKILL);
+            }
+        } else {
+            let _ = self.stdout.flush().await;
+        }
+    }
+}
+
+fn main() {
+    let script: Script = std::env::var("FAKE_CLI_SCRIPT")
+        .ok()
+        .and_then(|p| std::fs::read(p).ok())
+        .and_then(|b| serde_json::from_slice(&b).ok())
+        .unwrap_or_default();
+    let marks_path = std::env::var("FAKE_CLI_MARKS").ok();
+    let rt = tokio::runtime::Builder::new_current_thread()
+        .enable_all()
+        .build()
+        .expect("runtime");
+    let marks = rt.block_on(async {
+        let mut io = Stdio {
+            stdin: tokio::io::stdin(),
+            stdout: tokio::io::stdout(),
+            marks_path: marks_path.clone(),
+        };
+        let closes = script
+            .steps
+            .iter()
+            .any(|s| matches!(s, script::Step::Close { .. }));
+        let marks = run_script(&mut io, &script).await;
+        if !closes {
+            // no explicit close: stay until the parent closes our stdin
+            let mut b = [0u8; 1024];
+            while let Ok(n) = io.stdin.read(&mut b).await {
+                if n == 0 {
+                    break;
+                }
+            }
+        }
+        marks
+    });
+    if let Some(p) = marks_path {
+        let _ = std::fs::write(p, serde_json::to_vec(&marks).unwrap_or_default());
+    }
+    // clean close = exit 0 (stdout closed by process exit)
+    std::process::exit(0);
+}
